@@ -21,7 +21,7 @@ import os
 import sys
 
 HERE = os.path.dirname(os.path.abspath(__file__))
-GOLDEN = os.path.join(HERE, 'golden', 'Bound.v')
+GOLDEN = os.path.join(os.path.dirname(os.path.abspath(__file__)), 'golden', 'Bound.v')
 
 
 class Reject(Exception):
@@ -281,6 +281,44 @@ def tr_skin(mod):
             '  %s.' % term]
 
 
+BOUND_CODE = {'BoundTriangleSet': 0, 'BoundPolylist': 1, 'BoundPolygons': 1, 'BoundLineSet': 2,
+              'BoundPointLight': 0, 'BoundDirectionalLight': 1, 'BoundSpotLight': 2, 'BoundAmbientLight': 3,
+              'BoundPerspectiveCamera': 0, 'BoundOrthographicCamera': 1}
+
+
+def bind_class(mod, cls, nargs):
+    """`def bind(self, matrix[, materialnodebysymbol]): return Bound<X>(self, matrix[, ..])` -> code of Bound<X>"""
+    c = find(mod.body, cls, ast.ClassDef)
+    fn = find(c.body, 'bind', ast.FunctionDef)
+    want = ['self', 'matrix'] + (['materialnodebysymbol'] if nargs == 3 else [])
+    need([a.arg for a in fn.args.args] == want, '%s.bind signature' % cls)
+    body = [st for st in fn.body if not (isinstance(st, ast.Expr) and isinstance(st.value, ast.Constant))]
+    need(len(body) == 1 and isinstance(body[0], ast.Return) and isinstance(body[0].value, ast.Call), '%s.bind: a single return' % cls)
+    call = body[0].value
+    name = dotted(call.func)
+    need(name in BOUND_CODE and [dotted(a) for a in call.args] == want and not call.keywords, '%s.bind returns %s(..)' % (cls, name))
+    return name, BOUND_CODE[name]
+
+
+def tr_bind_classes(tri, pol, pg, lin, lig, cam):
+    rows = [('primitive', [(tri, 'TriangleSet', 3), (pol, 'Polylist', 3), (pg, 'Polygons', 3), (lin, 'LineSet', 3)]),
+            ('light', [(lig, 'PointLight', 2), (lig, 'DirectionalLight', 2), (lig, 'SpotLight', 2), (lig, 'AmbientLight', 2)]),
+            ('camera', [(cam, 'PerspectiveCamera', 2), (cam, 'OrthographicCamera', 2)])]
+    out = ['(* which Bound class the bind() method of each library class returns (codes: primitives 0 BoundTriangleSet,',
+           '   1 BoundPolylist/BoundPolygons, 2 BoundLineSet; lights 0 point, 1 directional, 2 spot, 3 ambient;',
+           '   cameras 0 perspective, 1 orthographic); the argument is the position of the library class in the',
+           '   lists TriangleSet, Polylist, Polygons, LineSet / PointLight, DirectionalLight, SpotLight, AmbientLight /',
+           '   PerspectiveCamera, OrthographicCamera *)']
+    for kind, lst in rows:
+        arms = []
+        for i, (m, cls, n) in enumerate(lst):
+            name, code = bind_class(m, cls, n)
+            arms.append('  | %d%%nat => %d%%nat (* %s.bind -> %s *)' % (i, code, cls, name))
+        out += ['Definition %s_bind_class (library_class : nat) : nat :=' % kind, '  match library_class with'] + arms + \
+               ['  | _ => %d%%nat' % (len(lst) + 5), '  end.']
+    return out
+
+
 PREAMBLE = '''(* GENERATED by harness/translate/bound.py from collada/triangleset.py, polylist.py, lineset.py,
    light.py, camera.py, controller.py and scene.py.  Do not edit: regenerated on every run;
    harness/translate/golden/Bound.v is the committed copy used when a source leaves the grammar. *)
@@ -339,6 +377,7 @@ def translate(repo):
         tr_table(sce, 'GeometryNode', 'geometry_node', 'geometry'),
         tr_table(sce, 'ControllerNode', 'controller_node', 'controller'),
         tr_skin(ctl),
+        tr_bind_classes(tri, pol, pg, lin, lig, cam),
     ]
     return PREAMBLE + '\n' + '\n\n'.join('\n'.join(p) for p in parts) + '\n'
 
